@@ -23,7 +23,7 @@
    collisions are covered.  Time (TTL expiry, retry-after) is outside this
    property: entries carry an [active] bit where the code's ladder depends on
    it. *)
-From Sdns Require Import Common.Base Gen.C03.
+From Sdns Require Import Common.Base Common.GoList Gen.C03.
 Open Scope N_scope.
 
 Definition bytes := list N.
@@ -274,6 +274,75 @@ Fixpoint parse_loop (fuel : nat) (rest : bytes) : option (list label) :=
   end.
 Definition parse_wire (w : bytes) : option (list label) :=
   if (len w =? 0) || (255 <? len w) then None else parse_loop (S (length w)) w.
+
+(* miekg/dns UnpackDomainName(msg, off) (msg.go at the version go.mod requires).  The label-printing loop
+   (`for _, b := range msg[off:off+c]`: backslash + special, escapeByte, the octet itself) is the TRANSLATED
+   one — Gen.C03.go_UnpackDomainName_loop2_run with go_isDomainNameLabelSpecial and go_escapeByte, all three
+   read from the module cache on every run; the outer loop leaves by a labelled break, which srcgen does not
+   translate: it is written here statement by statement (length octet, label-type bits, the budget of
+   maxDomainNameWireOctets, compression pointers with maxCompressionPointers — both constants regenerated).
+   None = one of the error returns (ErrBuf, ErrLongDomain, too many compression pointers, ErrRdata);
+   Some (text, off1) otherwise.  Every iteration consumes budget (at most 127 labels) or a pointer (at most
+   126) or ends the walk, so [unpack_fuel] iterations are never exhausted. *)
+Definition unpack_print_label (msg : bytes) (off : Z) (s : bytes) (c : Z) : bytes :=
+  let '(_, (_, _, s', _)) := go_UnpackDomainName_loop2_run msg off s c in s'.
+
+Fixpoint unpack_loop (fuel : nat) (msg : bytes) (off : Z) (s : bytes) (budget ptr off1 : Z) : option (bytes * Z) :=
+  match fuel with
+  | O => None
+  | S fuel' =>
+      let lenmsg := go_len msg in
+      if (off >=? lenmsg)%Z then None                                          (* ErrBuf *)
+      else
+        let c := Z.of_N (go_idx 0 msg off) in
+        let off := (off + 1)%Z in
+        let t := Z.land c 192 in
+        if (t =? 0)%Z then
+          if (c =? 0)%Z then Some (s, if (ptr =? 0)%Z then off else off1)       (* break Loop *)
+          else if (off + c >? lenmsg)%Z then None                               (* ErrBuf *)
+          else
+            let budget := (budget - (c + 1))%Z in
+            if (budget <=? 0)%Z then None                                       (* ErrLongDomain *)
+            else unpack_loop fuel' msg (off + c)%Z (unpack_print_label msg off s c ++ [46]) budget ptr off1
+        else if (t =? 192)%Z then
+          if (off >=? lenmsg)%Z then None                                       (* ErrBuf *)
+          else
+            let c1 := Z.of_N (go_idx 0 msg off) in
+            let off := (off + 1)%Z in
+            let off1 := if (ptr =? 0)%Z then off else off1 in
+            let ptr := (ptr + 1)%Z in
+            if (ptr >? dns_max_compression_pointers)%Z then None                (* too many compression pointers *)
+            else unpack_loop fuel' msg (Z.lor (Z.shiftl (Z.lxor c 192) 8) c1) s budget ptr off1
+        else None                                                               (* ErrRdata: 0x40 / 0x80 *)
+  end.
+Definition unpack_fuel : nat := 300.
+Definition unpack_name (msg : bytes) (off : N) : option (bytes * N) :=
+  match unpack_loop unpack_fuel msg (Z.of_N off) [] dns_max_name_wire_octets 0%Z 0%Z with
+  | Some (s, off1) => Some (match s with [] => [46] | _ :: _ => s end, Z.to_N off1)
+  | None => None
+  end.
+
+(* ------------------------------------------------------------------ *)
+(* Part A.5  what the decoded-path alias chase reads off a hop's response *)
+
+(* Cache.additionalAnswer hands every sub-query response to searchAdditionalAnswer(msg, res), whose first loop
+   appends res.Answer to the reply and names the NEXT sub-question: the Target of the last record of type CNAME
+   (child = there was one); respCnameHasType(res, qtype) ends the chase when the response already holds a record
+   of the client's type.  Records are the translator's sum type I_RR (Gen.C03: a *dns.CNAME, any other record
+   with its header, nil).  Both functions are translated from the Go AST; Proofs_Chase.v proves the translations
+   equal to these definitions. *)
+Definition rr_type (r : I_RR) : N := T_RR_Header_Rrtype (I_RR_Header r).
+Definition rr_cname_target (r : I_RR) : bytes :=
+  match r with I_RR_of_CNAME v => T_CNAME_Target v | _ => [] end.
+Definition dns_type_cname : N := 5.
+Fixpoint answer_alias_scan (ans : list I_RR) (target : bytes) (child : bool) : bytes * bool :=
+  match ans with
+  | [] => (target, child)
+  | r :: rest =>
+      if rr_type r =? dns_type_cname then answer_alias_scan rest (rr_cname_target r) true
+      else answer_alias_scan rest target child
+  end.
+Definition answer_has_type (ans : list I_RR) (qtype : N) : bool := existsb (fun r => rr_type r =? qtype) ans.
 
 (* ------------------------------------------------------------------ *)
 (* Part B.1  scopes: netip.Prefix.Masked, normalizeKeyScope             *)
